@@ -1,13 +1,14 @@
 (* Single executable entry point of the model: one s-expression line in, one line out.
    Used both by the extracted OCaml driver and by vm_compute inside Coq. *)
 From Coq Require Import List Ascii String ZArith.
-From PV Require Import Base.Sx Model.Levels Model.AddAtom Model.Entry11 Model.Search Model.EditRun.
+From PV Require Import Base.Sx Model.Levels Model.AddAtom Model.Entry11 Model.Search Model.EditRun Model.Walk.
 Import ListNotations.
 
 Definition dispatch (x : sx) : sx :=
   match x with
   | SL [SY "C07"; y] => run_levels y
   | SL [SY "C08"; y] => run_addatom y
+  | SL [SY "C09"; y] => run_c09 y
   | SL [SY "C10"; y] => run_c10 y
   | SL [SY "C11"; y] => run_c11 y
   | SL [SY "C12"; y] => run_c12 y
